@@ -28,10 +28,23 @@ def to_ptype(env, ty):
     if is_arr(ty):
         return tm.ArrayType(to_ptype(env, ty[1]), to_ptype(env, ty[2]))
     if is_sort(ty):
-        return tm.Type(ty[1], 0)
+        name = ty[1]
+        if "{" in name:
+            # instance of a parametric sort, e.g. "L{S1}" or "P{S2, Int}"
+            base, rest = name.split("{", 1)
+            args = [a.strip() for a in rest[:-1].split(",")]
+            decl = tm.Type(base, len(args))
+            return tm.get_type_instance(decl, *[to_ptype(env, _simple_type(a)) for a in args])
+        return tm.Type(name, 0)
     if is_fun(ty):
         return tm.FunctionType(to_ptype(env, ty[1]), [to_ptype(env, p) for p in ty[2]])
     raise ValueError(ty)
+
+
+def _simple_type(a):
+    if a in ("Int", "Real", "Bool", "String"):
+        return a
+    return ("Sort", a)
 
 
 def from_ptype(pt):
@@ -51,6 +64,8 @@ def from_ptype(pt):
         return ("Fun", from_ptype(pt.return_type), tuple(from_ptype(p) for p in pt.param_types))
     if pt.arity == 0 and pt.basename is not None:
         return ("Sort", pt.basename)
+    if pt.is_custom_type() and pt.args:
+        return ("Sort", pt.name)
     raise ValueError("cannot decode type %r" % (pt,))
 
 
